@@ -33,7 +33,8 @@ A *script* is a list of ops (all times in ticks of 62.5 ms):
     ["app_set_thread", x, v]   char.set_value(v) in a real worker thread (driver.tid is the loop thread,
                                so AccessoryDriver.publish defers through loop.call_soon_threadsafe);
                                the hand-off runs at the next "ready" / "advance"
-    ["lose", p]                connection_lost(None) delivered to #p. If the code has not closed the transport
+    ["lose", p]                connection_lost(exc) delivered to #p; exc is None (EOF) or ConnectionResetError /
+                               BrokenPipeError / TimeoutError / OSError by script position (abnormal loss). If the code has not closed the transport
                                itself this is a PEER-initiated end: as in asyncio (_SelectorTransport.close /
                                _force_close set _closing before connection_lost is scheduled) is_closing() is
                                already True when connection_lost runs
@@ -509,7 +510,18 @@ class World:
                 self.lost.add(p)
                 if not self.transports[p].closing:
                     self.transports[p].peer_ended()
-                self.protos[p].connection_lost(None)
+                # the exception argument of connection_lost: None for a clean EOF, an OSError for an abnormal
+                # loss (reset, broken pipe, timeout); which one is a function of the script position, so that
+                # every family of scripts ends connections in every way
+                causes = (None, ConnectionResetError(104, "Connection reset by peer"), None,
+                          BrokenPipeError(32, "Broken pipe"), TimeoutError(110, "Connection timed out"),
+                          OSError(113, "No route to host"))
+                try:
+                    self.protos[p].connection_lost(causes[(self.op_index + p) % len(causes)])
+                except Exception as ex:  # noqa: BLE001
+                    # asyncio calls connection_lost from a loop callback: an exception goes to the loop's
+                    # exception handler and the loop carries on; whatever clean-up was skipped stays skipped
+                    self.loop_errors.append("connection_lost raised " + repr(ex))
         elif k == "stop":
             if not self.driver.aio_stop_event.is_set():
                 t = lp.create_task(self.driver.async_stop())
